@@ -16,6 +16,7 @@ JDir(r, j) ==
     /\ ClauseAt("C06.derived_answers", j,
           /\ MaxIntersectionOKh(R, v, o, d, c.max)
           /\ FarthestOK(v, o, d, c.far)
+          /\ FarthestOK(v, o, d, c.far_c) /\ FarthestOK(v, o, d, c.far_p)        \* the Curve2 routes to the same answer
           \* normal line of a surface point: same crossings, parameters measured in units of length (|d| integral only)
           \* (the direction is normalised, hence inexact: the count is demanded only where every vertex on the
           \*  line is a proper crossing - touches, open ends and edges along the line are free)
